@@ -486,6 +486,63 @@ def stage_falsy_and_order_sweep(ctx: Ctx):
                     attempt(src, path, lambda g, fld=fld, code=code: (lambda: getattr(g, fld).append(code)), {'how': 'order-append', 'field': fld, 'code': code})
 
 
+def stage_mixed_elements_sweep(ctx: Ctx):
+    """deterministic: into every kind of container a code of TWO elements, one that fits and one of a kind that may not (a literal, an attribute, a starred, a keyword, an
+    `as` pair, a statement ...), in both orders, through put_slice / extend / view slice assignment: either the call succeeds and the tree re-parses to itself, or it
+    raises and the tree is exactly as it was and still editable - whatever part of the code the validation looked at first"""
+    import fst
+    from lib.containers import CONTAINERS, render_ok
+    bads = ['1', 'y.z', '*y', 'k=v', '**kw', 'a as b', 'lambda: 0', '(x := 1)', 'r[0]', '"s"', 'a: int', 'not a', 'x.y as z', 'f()', '[l]', 'a if b else c', 'a, b', '']
+    for c in CONTAINERS:
+        if len(c.pool) < 3:
+            continue
+        olds = list(c.pool[:max(2, c.min_len)])
+        src = render_ok(c, olds)
+        if src is None:
+            olds = list(c.pool[:3])
+            src = render_ok(c, olds)
+        if src is None:
+            continue
+        good = c.pool[-1]
+        sep = c.seps[0] if getattr(c, 'seps', None) else ', '
+        for bad in bads:
+            for code in (f'{good}{sep}{bad}', f'{bad}{sep}{good}', f'{good}{sep}{bad}{sep}{good}'):
+                for ep in ('put_slice', 'extend', 'view_setslice', 'insert0'):
+                    try:
+                        m = fst.FST(src, 'exec')
+                        node = eval(c.path, {'m': m})
+                    except Exception:
+                        break
+                    before = (m.src, ast.dump(m.a, include_attributes=True))
+                    rec = {'container': c.name, 'src': src, 'code': code, 'entry': ep}
+                    try:
+                        if ep == 'put_slice':
+                            node.put_slice(code, 0, 1, c.field)
+                        elif ep == 'extend':
+                            node.extend(code, c.field)
+                        elif ep == 'view_setslice':
+                            getattr(node, c.field)[0:1] = code
+                        else:
+                            node.put_slice(code, 0, 0, c.field)
+                    except Exception as e:
+                        ctx.tick(('mixed', c.name, code, ep, 'raised'), 'fault:sweep:mixed-elements')
+                        after = (m.src, ast.dump(m.a, include_attributes=True) if m.a is not None else None)
+                        if after != before:
+                            ctx.violation(f'mutated|sweep-mixed-elements|{c.name}|{type(e).__name__}|' + ('source changed' if after[0] != before[0] else 'tree positions/structure changed'),
+                                          'a raising edit did not leave the tree exactly as it was', {**rec, 'error': repr(e)[:200], 'src_after': after[0]})
+                            continue
+                        # still editable: a valid edit of ANOTHER node goes through
+                        try:
+                            m.body.append('still_editable = 1')
+                        except Exception as e2:
+                            ctx.violation(f'locked|sweep-mixed-elements|{c.name}', 'after a raising edit the tree no longer accepts a valid edit', {**rec, 'error': repr(e)[:200], 'second_error': repr(e2)[:200]})
+                        continue
+                    ctx.tick(('mixed', c.name, code, ep, 'ok'), 'fault:sweep:mixed-elements:accepted')
+                    d = reparse_diffs(m)
+                    if d:
+                        ctx.violation(f'accepted-invalid|sweep-mixed-elements|{c.name}', 'an edit that was accepted left a tree that does not re-parse to itself', {**rec, 'src_after': m.src, 'diffs': d})
+
+
 def run(ctx: Ctx):
     ctx.rule = ('fault sequences: histories mixing invalid requests (15 fault kinds: unparsable code, wrong category with coerce=False, index/slice out of '
                 'range, bad/unknown options, consumed or non-root FST as code, to= without raw, deletion of required fields, ordering violations) and '
@@ -502,6 +559,7 @@ def run(ctx: Ctx):
     run_guarded(ctx, stage_delete_sweep)
     run_guarded(ctx, stage_option_sweep)
     run_guarded(ctx, stage_falsy_and_order_sweep)
+    run_guarded(ctx, stage_mixed_elements_sweep)
 
 
 def replay(path):
